@@ -22,6 +22,7 @@ from dsmc.tables import row, schema
 
 GRACE_MS = 3600_000
 OLD_S = 7200.0
+LAG_S = 600.0
 
 
 def build_template(w: TableWorld) -> None:
@@ -72,6 +73,7 @@ class C06World(TableWorld):
             self.tx_files.append(tx._written_files[0])
         self.env_commits = 0
         self.env_gcs = 0
+        self.lags = 0
 
     def _collect(self, handle):
         """One collection run; its virtual start/end instants are recorded: the statement only speaks about runs
@@ -126,6 +128,9 @@ class C06World(TableWorld):
                     and a.steps > 0 and not a.frozen and self.gc_open == 0:
                 # environment event: a whole collection run by another process, as one atomic step
                 opts.append(("other-process-collects", "E"))
+            if a.name == "G" and self.cfg.get("max_lags", 0) > self.lags and self.gc_open > 0 and a.state != DONE:
+                # the collection run is slow: ten minutes (much less than the grace period) pass in the middle of it
+                opts.append(("run-takes-10-more-minutes", "G"))
             if a.name != "T":
                 continue
             if a.frozen:
@@ -144,6 +149,10 @@ class C06World(TableWorld):
 
     def apply_extra(self, ex: Execution, opt) -> None:
         kind, name = opt
+        if kind == "run-takes-10-more-minutes":
+            self.lags += 1
+            ENV.clock = round(ENV.clock + LAG_S, 6)
+            return
         if kind == "other-process-collects":
             self.env_gcs += 1
             ENV.set_actor("envG")
@@ -242,11 +251,12 @@ def run_config(cfg: Dict[str, Any]) -> Dict[str, Any]:
 def configs(tier: str, seed: int) -> List[Dict[str, Any]]:
     out = []
 
-    def add(backend, variant, bound=None, sample=False, max_pauses=0):
+    def add(backend, variant, bound=None, sample=False, max_pauses=0, max_lags=0):
         out.append({"id": f"{backend}/{variant}" + (f"/stall{max_pauses}" if max_pauses else "")
-                    + (f"/b{bound}" if bound is not None else ""), "backend": backend,
+                    + (f"/lag{max_lags}" if max_lags else "")
+                    + (f"/b{bound}" if bound is not None else ""), "backend": backend, "max_lags": max_lags,
                     "variant": variant, "bound": bound, "tier": tier, "seed": seed, "sample": sample,
-                    "max_pauses": max_pauses, "env_commit": variant.endswith("+envcommit") or variant.endswith("+envgc")})
+                    "max_pauses": max_pauses, "env_commit": variant.endswith("+envcommit") or variant.endswith("+envgc") or bool(max_lags)})
 
     for b in ("local", "s3"):
         add(b, "commit_old", sample=(b == "s3"))
@@ -263,6 +273,8 @@ def configs(tier: str, seed: int) -> List[Dict[str, Any]]:
             add(b, "commit_old+envcommit")
         # the transaction loses its first commit attempt against another writer (atomic environment commit) and retries
         add(b, "commit_old+envcommit", bound=1)
+        # a slow collection run (10 min << grace) with a whole append landing in the middle of it
+        add(b, "append_fresh", bound=1, max_lags=1)
         # a whole collection run of another process lands atomically at any point of the append; the writer may stall
         # for 2 h afterwards and the explored collector then runs
         add(b, "append_fresh+envgc", bound=1, max_pauses=1)
